@@ -12,9 +12,17 @@ open Lean AGV
 
 namespace Driver.Fe
 
+/-- a boolean key that recorded ops from before the key existed do not carry: absent = `false` -/
+def getBoolD (j : Json) (k : String) : Except String Bool :=
+  match j.getObjVal? k with
+  | .ok .null => pure false
+  | .ok v => v.getBool?
+  | .error _ => pure false
+
 def parseVariant (j : Json) : Except String Variant := do
   pure { refForwards := ← getBool j "ref", lspFixerRange := ← getBool j "lsp",
-         lspOuterFirst := ← getBool j "outer", stdinFiltersOff := ← getBool j "stdin_off" }
+         lspOuterFirst := ← getBool j "outer", stdinFiltersOff := ← getBool j "stdin_off",
+         stdinFiltersLang := ← getBoolD j "stdin_lang" }
 
 def parseRng (j : Json) : Except String Rng := do
   let l ← arrOf j
@@ -110,16 +118,26 @@ def parseSev (s : String) : Except String Sev :=
   | "hint" => pure .hint | "off" => pure .off
   | _ => throw s!"bad severity {s}"
 
+def parseMatches (j : Json) : Except String (List FMatch) := do
+  (← arrOf j).mapM fun m => do
+    pure ({ node := ← parseRng (← m.getObjVal? "n"), env := ← getTEnv m } : FMatch)
+
 def parseRuleMatches (j : Json) : Except String RuleMatches := do
   let note ← match j.getObjVal? "note" with
     | .ok (.str n) => pure (some (strBytes n))
     | _ => pure none
   let r : FRule := { id := ← getBytes j "id", sev := ← parseSev (← getStr j "sev"),
                      message := ← getBytes j "msg", note := note,
-                     keys := (← getStrList j "keys").map strBytes }
-  let ms ← (← arrOf (← j.getObjVal? "ms")).mapM fun m => do
-    pure ({ node := ← parseRng (← m.getObjVal? "n"), env := ← getTEnv m } : FMatch)
-  pure (r, ms)
+                     keys := (← getStrList j "keys").map strBytes,
+                     foreign := ← getBoolD j "foreign" }
+  pure (r, ← parseMatches (← j.getObjVal? "ms"))
+
+/-- the matches `sg test` looks at: those of the rule on the case parsed in the RULE's language
+(`own_ms`, sent for a foreign rule); for any other rule its matches on the document -/
+def parseTestMatches (j : Json) : Except String (List FMatch) :=
+  match j.getObjVal? "own_ms" with
+  | .ok (.arr a) => parseMatches (.arr a)
+  | _ => do parseMatches (← j.getObjVal? "ms")
 
 def jFinding (f : Finding) : Key × Json :=
   (([f.range.start, f.range.stop, f.start.1, f.start.2, f.stop.1, f.stop.2], [f.id, f.message]),
@@ -136,7 +154,9 @@ def ghName : GhLevel → String
 def opFeFindings : Handler := fun a => do
   let v ← parseVariant (← a.getObjVal? "v")
   let src ← getBytes a "src"
-  let rs ← (← arrOf (← a.getObjVal? "rules")).mapM parseRuleMatches
+  let rules ← arrOf (← a.getObjVal? "rules")
+  let rs ← rules.mapM parseRuleMatches
+  let tms ← rules.mapM parseTestMatches
   let file := jFindings (scanFindings src rs)
   let stdin := jFindings (stdinFindings v src rs)
   let github := match githubFindings src rs with
@@ -144,7 +164,7 @@ def opFeFindings : Handler := fun a => do
     | some gs => Json.arr (sortKeyed (gs.map fun (id, l, ln, el, msg) =>
         (([ln, el], [id, strBytes (ghName l), msg]),
          Json.arr #[jBytes id, Json.str (ghName l), jNat ln, jNat el, jBytes msg]))).toArray
-  let test := Json.mkObj (rs.map fun (r, ms) =>
+  let test := Json.mkObj ((rs.zip tms).map fun ((r, _), ms) =>
     (bytesStr r.id, match testVerdictValid r ms with
       | none => Json.null
       | some true => Json.str "."
